@@ -7,6 +7,7 @@
 -/
 import PV.Model.PacketEpoch
 import PV.Model.PacketTrunc
+import PV.Generated.C03
 namespace PV.Props.C02
 open PV PV.Packet
 
@@ -14,6 +15,15 @@ open PV PV.Packet
 theorem tag_compare_is_equality (a b : Bytes) : ctEq a b = true ↔ a = b := ctEq_iff a b
 
 example : ctEq [1, 2, 3, 4] [1, 2, 3] = false ∧ ctEq [1, 2, 3, 4] [1, 2, 3, 5] = false ∧ ctEq [1, 2] [1, 2] = true := by
+  decide
+
+/-- in the source (AST of `read_message`, regenerated on every run) each "Mismatched MAC" comparison is nested under
+exactly one `if` — the test selecting the receive path (`self.__etm_in`, resp. `mac_size_in > 0 and not etm and not
+aead`) — and never under a condition on the packet length; the model's branches (`readEtm`, `readClassic`) have the
+same shape, so `accept_checks_tag_*` below hold for EVERY value of the length field -/
+theorem mac_check_not_under_length_condition_generated :
+    PV.Generated.C03.read_etm_mac_guard_depth = 1 ∧ PV.Generated.C03.read_classic_mac_guard_depth = 1 ∧
+    PV.Generated.C03.read_mac_guards_are_the_mode_tests = true := by
   decide
 
 /-- **encrypt-then-MAC.** Whatever the bytes `buf` are: if `read_message` delivers, then `buf` starts with
